@@ -1454,13 +1454,12 @@ func (r *Raft) InstallSnapshot(
 		return nil
 	}
 
+	receivedMetadata := r.snapshot.Metadata()
 	if err := r.snapshot.Close(); err != nil {
 		r.logger.Fatalf("failed to close snapshot file: error = %v", err)
 	}
 
 	r.snapshot = nil
-	r.lastIncludedIndex = request.LastIncludedIndex
-	r.lastIncludedTerm = request.LastIncludedTerm
 
 	// If an existing log entry has the same index and term as the last index
 	// and last term, discard the log through the last index and reply.
@@ -1472,9 +1471,12 @@ func (r *Raft) InstallSnapshot(
 		}
 
 		// It's possible that a snapshot was taken and the log was compacted while the lock was released.
-		if r.state == Shutdown || r.lastIncludedIndex > request.LastIncludedIndex {
+		if r.state == Shutdown || r.lastIncludedIndex >= request.LastIncludedIndex {
 			return nil
 		}
+
+		r.lastIncludedIndex = request.LastIncludedIndex
+		r.lastIncludedTerm = request.LastIncludedTerm
 
 		r.logger.Warnf("compacting log: logIndex = %d", request.LastIncludedIndex)
 		if err := r.log.Compact(request.LastIncludedIndex); err != nil {
@@ -1484,20 +1486,36 @@ func (r *Raft) InstallSnapshot(
 		return nil
 	}
 
+	// Wait for the operation that is being applied to complete and prevent further operations
+	// from being applied while the state machine is restored.
+	if !r.reserveStateMachine() {
+		return nil
+	}
+	defer r.releaseStateMachine()
+
+	// The lock was released while waiting for the state machine. The snapshot must not be
+	// installed if a snapshot that is at least as recent was installed or taken in the meantime
+	// or if the operations that it contains have been applied in the meantime - the state
+	// machine would be reverted to an older state otherwise.
+	if r.lastIncludedIndex >= request.LastIncludedIndex ||
+		r.lastApplied >= request.LastIncludedIndex {
+		return nil
+	}
+
 	snapshot, err := r.snapshotStorage.SnapshotFile()
 	if err != nil {
 		r.logger.Fatalf("failed to get snapshot file: error = %v", err)
 	}
 
-	// Wait for the operation that is being applied to complete and prevent further operations
-	// from being applied while the state machine is restored.
-	if !r.reserveStateMachine() {
+	// Another snapshot may have been created while the lock was released. The state machine must
+	// only be restored with the snapshot that was received - it is sent again if it is still needed.
+	if metadata := snapshot.Metadata(); metadata.LastIncludedIndex != receivedMetadata.LastIncludedIndex ||
+		metadata.LastIncludedTerm != receivedMetadata.LastIncludedTerm {
 		if err := snapshot.Close(); err != nil {
 			r.logger.Errorf("failed to close snapshot file: error = %v", err)
 		}
 		return nil
 	}
-	defer r.releaseStateMachine()
 
 	// Restore the state machine with the snapshot.
 	// This could take a while so it's probably best that the lock is released.
@@ -1520,17 +1538,30 @@ func (r *Raft) InstallSnapshot(
 	}
 
 	r.lastApplied = request.LastIncludedIndex
-	r.commitIndex = request.LastIncludedIndex
+	r.commitIndex = numeric.Max(r.commitIndex, request.LastIncludedIndex)
 
-	// Discard the entire log.
-	r.logger.Warnf(
-		"discarding log: lastIndex = %d, lastTerm = %d",
-		request.LastIncludedIndex,
-		request.LastIncludedTerm,
-	)
-	if err := r.log.DiscardEntries(request.LastIncludedIndex, request.LastIncludedTerm); err != nil {
-		r.logger.Fatalf("failed to discard log entries: error = %v", err)
+	// The log may have been brought in line with the log of the leader while the lock was
+	// released. Only the entries up to the last included index are discarded in this case.
+	// Otherwise, the entire log is discarded. The last included index and term are not
+	// updated before the log has been changed since they describe where the log starts.
+	if entry, _ := r.log.GetEntry(request.LastIncludedIndex); entry != nil &&
+		entry.Term == request.LastIncludedTerm {
+		r.logger.Warnf("compacting log: logIndex = %d", request.LastIncludedIndex)
+		if err := r.log.Compact(request.LastIncludedIndex); err != nil {
+			r.logger.Fatalf("failed to compact log: error = %v", err)
+		}
+	} else {
+		r.logger.Warnf(
+			"discarding log: lastIndex = %d, lastTerm = %d",
+			request.LastIncludedIndex,
+			request.LastIncludedTerm,
+		)
+		if err := r.log.DiscardEntries(request.LastIncludedIndex, request.LastIncludedTerm); err != nil {
+			r.logger.Fatalf("failed to discard log entries: error = %v", err)
+		}
 	}
+	r.lastIncludedIndex = request.LastIncludedIndex
+	r.lastIncludedTerm = request.LastIncludedTerm
 
 	// Update the configuration.
 	r.applyConfiguration(request.Configuration)
